@@ -151,6 +151,18 @@ def check_once(contract_cls, fn, args: dict, clauses=None):
                 break
         if not ok:
             failures.append(("raises", f"unexpected {type(raised).__name__}: {raised}"))
+        # postconditions of this exceptional exit: raised_<Exc>(old, <params>, exc)
+        for name in dir(contract_cls):
+            if name.startswith("raised_") and name.split("_")[1] in names:
+                if clauses is not None and name not in clauses:
+                    continue
+                try:
+                    if not getattr(contract_cls, name)(old=old, exc=raised, **args):
+                        failures.append((name, "clause is False"))
+                except Exception as e:
+                    from .dsl import NotNative
+                    if not isinstance(e, NotNative):
+                        failures.append((name, f"clause raised {type(e).__name__}: {e}"))
         return ("fail" if failures else "ok"), failures
     for name in dir(contract_cls):
         if not name.startswith(("ensures", "native_")):
